@@ -533,6 +533,32 @@ impl C {
     }
 
     /// typed server-header encryption (size u16 for vanilla/tbc, u32 for wrath)
+    /// n calls of one byte each, recorded as ONE Call event (the specification's stream does not depend on how the
+    /// bytes are grouped into calls): counters of calls must not run over
+    pub fn bulk_calls(&mut self, c: &mut Conn, dir: &str, n: usize, via: &str) -> bool {
+        let mut data = vec![0u8; n];
+        let mut x: u32 = 0x2545_F491 ^ n as u32;
+        for d in data.iter_mut() { x ^= x << 13; x ^= x >> 17; x ^= x << 5; *d = x as u8; }
+        let mut out = vec![0u8; n];
+        let mut failed: Option<String> = None;
+        for k in 0..n {
+            let mut one = [data[k]];
+            let r = if dir == "enc" {
+                guard(|| enc_half!(c, via, |h| h.encrypt(&mut one), V, T, WC, WS))
+            } else {
+                guard(|| dec_half!(c, via, |h| h.decrypt(&mut one), V, T, WC, WS))
+            };
+            match r { Ok(_) => out[k] = one[0], Err(m) => { failed = Some(m); break; } }
+        }
+        let h = if dir == "enc" { c.he } else { c.hd };
+        let st = if dir == "enc" { c.enc_state() } else { c.dec_state() };
+        let mut e = json!({"ev": "Call", "h": h, "data": b(&data), "via": via, "st": st});
+        match failed {
+            None => { e["res"] = json!({"kind": "ok", "out": b(&out)}); self.tr.ev(e); true }
+            Some(m) => { e["res"] = panic_res(&m); self.tr.ev(e); false }
+        }
+    }
+
     pub fn enc_server_hdr(&mut self, c: &mut Conn, size: u32, opcode: u16, via: &str) -> Option<Vec<u8>> {
         let wire = wire_server(c.exp, size, opcode);
         let raw = c.raw_enc(&wire);
